@@ -218,7 +218,15 @@ class SimpleLoop(Loop[World]):
                 self._current_world.process(dt)
 
             except SwitchWorld as ex:
-                self.switch(ex.world_handle, ex.clear_current, ex.clear_next)
+                # Entering a world releases its pending events, whose
+                # callbacks may in turn ask for another switch
+                while ex is not None:
+                    try:
+                        self.switch(ex.world_handle, ex.clear_current,
+                                    ex.clear_next)
+                        ex = None
+                    except SwitchWorld as nested_ex:
+                        ex = nested_ex
 
     def switch(self, world_handle: Handle[World], clear_current=False,
                clear_next=False):
